@@ -308,3 +308,139 @@ def parameter_memo(m, g, writer_keys):
             if why:
                 return False, why
     return True, ""
+
+
+# ---------------------------------------------------------------------------------------------------------------
+# effects that exist only in some build configurations
+
+_PURE_EXTERNALS = {"strlen", "strnlen", "strcmp", "strncmp", "memcmp", "fabs", "sqrt", "log", "log1p", "exp", "expm1", "pow", "floor",
+                   "ceil", "fmax", "fmin", "isnan", "isinf", "isfinite", "ldexp", "frexp", "lgamma", "tgamma", "sin", "cos", "tan",
+                   "atan", "atan2", "round", "trunc", "abs", "labs", "llabs", "__builtin_expect", "__builtin_isnan", "__builtin_isinf",
+                   "__builtin_isfinite", "__builtin_fabs", "pthread_self", "sysconf", "malloc", "calloc", "realloc", "free", "aligned_alloc",
+                   "_mm_getcsr"}
+
+
+def impure_functions(m):
+    """keys of functions that may change state outside their own locals: a store through a pointer / to a member / to a global,
+    a call through a pointer, a call of an unknown external, or a call of such a function (fixpoint)"""
+    cache = m.__dict__.get("_impure")
+    if cache is not None:
+        return cache
+    from ..astutil import strip, kids, walk, callee_ref
+    from .. import inv
+    direct = set()
+    calls = {}
+    for k, f in m.funcs.items():
+        if f.body is None:
+            continue
+        local_ids = {x.get("id") for x in walk(f.body) if x["kind"] == "VarDecl" and x.get("storageClass") != "static"}
+        local_ids |= {p.get("id") for p in f.params}
+        # pointer locals that only ever hold freshly allocated storage: what they point to is local as well
+        fresh = set()
+        for x in walk(f.body):
+            if x["kind"] == "VarDecl" and kids(x) and "*" in (x.get("type") or ""):
+                i0 = strip(kids(x)[0], casts=True)
+                if i0["kind"] == "CallExpr" and callee_ref(i0) in ("cmi_malloc", "cmi_calloc", "malloc", "calloc"):
+                    fresh.add(x.get("id"))
+        for l, r, kd, n in inv.stores(f):
+            l0 = strip(l, casts=True)
+            if l0["kind"] == "DeclRefExpr" and l0["ref"].get("id") in fresh and kd == "=":
+                r0 = strip(r, casts=True) if r is not None else None
+                if not (r0 is not None and r0["kind"] == "CallExpr" and callee_ref(r0) in ("cmi_malloc", "cmi_calloc", "malloc", "calloc")):
+                    fresh.discard(l0["ref"]["id"])
+        for l, r, kd, n in inv.stores(f):
+            l0 = strip(l, casts=True)
+            if l0["kind"] == "DeclRefExpr" and l0["ref"].get("id") in local_ids:
+                continue
+            # a member of a struct-typed local is local storage as well
+            root = l0
+            via_ptr = False
+            while root["kind"] in ("MemberExpr", "ArraySubscriptExpr", "UnaryOperator", "ParenExpr", "ImplicitCastExpr", "CStyleCastExpr"):
+                if (root["kind"] == "MemberExpr" and root.get("isArrow")) or (root["kind"] == "UnaryOperator" and root.get("opcode") == "*") or \
+                        (root["kind"] == "ArraySubscriptExpr" and "*" in (strip(kids(root)[0], casts=True).get("type") or "") and
+                         "[" not in (strip(kids(root)[0], casts=True).get("type") or "")):
+                    via_ptr = True
+                root = kids(root)[0]
+            if root["kind"] == "DeclRefExpr" and root["ref"].get("id") in local_ids and not via_ptr:
+                continue
+            if root["kind"] == "DeclRefExpr" and root["ref"].get("id") in fresh:
+                continue
+            direct.add(k)
+            break
+        cs = set()
+        for c in walk(f.body):
+            if c["kind"] == "CallExpr":
+                nm = callee_ref(c)
+                if nm is not None and (nm == "cmi_assert_failed" or nm.startswith(("cmi_logger_", "cmb_logger_"))):
+                    continue                  # the failure arm of an assertion and logging are not state of the model
+                if nm is None:
+                    direct.add(k)
+                    continue
+                tk = m.resolve(f.unit, nm)
+                if tk in m.funcs:
+                    cs.add(tk)
+                elif nm not in _PURE_EXTERNALS:
+                    direct.add(k)
+        calls[k] = cs
+    imp = set(direct)
+    changed = True
+    while changed:
+        changed = False
+        for k, cs in calls.items():
+            if k not in imp and cs & imp:
+                imp.add(k)
+                changed = True
+    m.__dict__["_impure"] = imp
+    return imp
+
+
+def config_dependent_effects(m, files=None):
+    """[(function, call node, callee name, 'assert' | 'log')] for calls of state-changing functions that sit inside the
+    condition of an assertion or among the arguments of a logging call: such code is compiled out by NDEBUG / NASSERT /
+    NLOGINFO, so the state change exists in some build configurations only."""
+    from ..astutil import kids, walk, callee_ref
+    from ..vals import any_assert_condition
+    imp = impure_functions(m)
+    out = []
+    for f in m.funcs.values():
+        rel = m.rel(f.file) or ""
+        if not rel.startswith(("src/", "include/")) or f.body is None:
+            continue
+        if files is not None and not any(rel.endswith(x) for x in files):
+            continue
+        for s in walk(f.body):
+            conds = []
+            kind = None
+            if s["kind"] in ("ParenExpr", "ConditionalOperator", "DoStmt"):
+                c = any_assert_condition(s)
+                if c is not None:
+                    conds, kind = [c], "assert"
+            if s["kind"] == "CallExpr" and (callee_ref(s) or "").startswith(("cmi_logger_", "cmb_logger_")):
+                conds, kind = kids(s)[1:], "log"
+            for cnd in conds:
+                for y in walk(cnd):
+                    if y["kind"] == "CallExpr":
+                        nm = callee_ref(y)
+                        if nm is None:
+                            continue
+                        tk = m.resolve(f.unit, nm)
+                        if (tk in m.funcs and tk in imp) or (tk not in m.funcs and nm not in _PURE_EXTERNALS and
+                                                             not nm.startswith(("__builtin", "cmb_logger", "cmi_logger"))):
+                            out.append((f, y, nm, kind))
+    return out
+
+
+def config_effects_rule(rep, rule, m, files=None, consequence=""):
+    from ..astutil import loc
+    found = config_dependent_effects(m, files)
+    n_as = sum(1 for f in m.funcs.values() if (m.rel(f.file) or "").startswith(("src/", "include/")))
+    rule.instance("assertion conditions and logging arguments of %d library functions scanned for state-changing calls: %d found"
+                  % (n_as, len(found)))
+    if not found:
+        rule.ok()
+    for f, node, nm, kind in found:
+        rep.finding(rule, f.name, "config:effect-in-" + kind, "%s calls %s inside %s: that code is compiled out by the documented "
+                    "production flags (%s), so the state change happens in some build configurations only%s"
+                    % (f.name, nm, "the condition of an assertion" if kind == "assert" else "the arguments of a logging call",
+                       "NDEBUG / NASSERT" if kind == "assert" else "NLOGINFO", consequence), where=m.rel(loc(node)))
+        rule.fail()
